@@ -49,7 +49,7 @@ func vxLineOf(line Box) vxLine {
 // line breaking with a metric-exact font model (every rune an em square of 10px): a paragraph
 // in a container of symbolic width.
 func VxH_C11_lines() {
-	variant := vx.Choose("variant", 5+vx.Tier())
+	variant := vx.Choose("variant", 6+vx.Tier())
 	align := vx.Choose("align", 3)
 	aligns := []string{"left", "right", "center"}
 	var body, ws, extra string
@@ -76,6 +76,11 @@ func VxH_C11_lines() {
 		extra = "span{padding-left:5px;padding-right:15px} "
 		words = []string{"aa", "bbb", "c", "dddd", "ee"}
 	case 5:
+		// an inline box with a wide start spacing, glued to the text that follows it
+		body, ws = "<span>aaa bbb cc</span>ddd", "normal"
+		extra = "span{padding-left:40px} "
+		words = []string{"aaa", "bbb", "ccddd"}
+	case 6:
 		body, ws = "aa <span>bbb c</span> dddd ee", "normal"
 		extra = "span{padding-left:5px;padding-right:15px} p{direction:rtl} "
 		words = []string{"aa", "bbb", "c", "dddd", "ee"}
@@ -175,7 +180,7 @@ func VxH_C11_lines() {
 			}
 		}
 		k += nw + 1
-		if plain && ws != "nowrap" && i+1 < len(lines) && k < len(words) && k != forcedBefore {
+		if (plain || variant == 5) && ws != "nowrap" && i+1 < len(lines) && k < len(words) && k != forcedBefore {
 			next := pr.Float(10 * len(words[k]))
 			vx.Assert("break-only-when-next-word-does-not-fit:"+id, float64(used+ind+10+next) > float64(W))
 		}
